@@ -21,7 +21,7 @@ THEOREMS = ['C07_sound', 'C07_unit', 'C07_unit_nautilus', 'C07_inner_outer', 'C0
             'C07_ell_sample', 'C07_frame_roundtrip', 'C07_ell_encloses', 'C07_quadform_div']
 TIE_THEOREMS = ['C07_tie_formulas']
 MODULE = [('NautilusVerif.Properties.C07', THEOREMS), ('NautilusVerif.Properties.C07Tie', TIE_THEOREMS),
-          ('NautilusVerif.Properties.CoreTie', ['Core_tie_unionContains', 'Core_tie_nautilusContains', 'Core_tie_neuralContains', 'Core_tie_nautilusSample'])]
+          *common.core_tie(['unionContains', 'nautilusContains', 'neuralContains', 'nautilusSample'])]
 FILES = ['nautilus/bounds/basic.py', 'nautilus/bounds/union.py', 'nautilus/bounds/nautilus.py', 'nautilus/bounds/neural.py',
          'nautilus/bounds/periodic.py']
 NN = dict(hidden_layer_sizes=(12, 6), max_iter=150)
